@@ -38,9 +38,13 @@
 VfCounters g_cnt;
 
 // default-constructible element built on the shared lifetime-tracked payload
+// (the default value is a small positive number on purpose: the translator lowers the inline/heap
+// union to its pointer-bearing member, and CBMC does not preserve integer bit patterns with high bits
+// set, such as -1, when they are stored over a pointer-typed field -- see NOTES.md, false alarms)
+#define DEFAULT_V 101  // values chosen by the harness are 0..100
 struct Elem {
   Tracked t;
-  Elem() noexcept : t(-1) {}
+  Elem() noexcept : t(DEFAULT_V) {}
   explicit Elem(int32_t x) noexcept : t(x) {}
 };
 
@@ -131,9 +135,9 @@ VF_NOINLINE static void after(Ghost& ga, Ghost& gb) {
   run<D - 1>(ga, gb);
 }
 
-// with VF_FULL == 0 only the state-building kinds (push, resize to N / N+1 / MAX, reserve(N+1), B = A,
-// initializer-list construction, push on B) are explored at the inner levels of the tree; the last
-// level always explores every kind
+// Inner levels of the tree: VF_FULL == 0 explores only four state-building kinds (push, resize to N+1,
+// B = A, initializer-list construction), VF_FULL == 1 eight (plus resize to N / MAX, reserve(N+1), push
+// on B), VF_FULL == 2 every kind.  The last level always explores every kind.
 #ifndef VF_FULL
 #define VF_FULL 0
 #endif
@@ -144,7 +148,9 @@ VF_NOINLINE static void after(Ghost& ga, Ghost& gb) {
     return;              \
   }
 #define LAST_ONLY \
-  if (D > 1 && !VF_FULL) SKIP
+  if (D > 1 && VF_FULL < 2) SKIP
+#define WIDE_ONLY \
+  if (D > 1 && VF_FULL < 1) SKIP
 
 #define NEXT                                  \
   {                                           \
@@ -177,7 +183,7 @@ static void op_push(Vec& v, Ghost& gv) {
 static void op_resize(Vec& v, Ghost& gv, uint32_t cnt) {
   if (vf_nondet_bool()) {
     v.resize((size_t)cnt);
-    gresize(gv, cnt, -1);
+    gresize(gv, cnt, DEFAULT_V);
   } else {
     int32_t x = val();
     Elem e(x);
@@ -195,7 +201,7 @@ static void op_ctor_count(Vec* at, Ghost& g, uint32_t cnt) {
   g.n = 0;
   g.bytes = 0;
   if (vf_nondet_bool()) {
-    gresize(g, cnt, -1);
+    gresize(g, cnt, DEFAULT_V);
     new (at) Vec((size_t)cnt);
   } else {
     int32_t x = val();
@@ -269,12 +275,14 @@ VF_NOINLINE static void run(Ghost& ga, Ghost& gb) {
       op_resize(A, ga, 0);
       NEXT;
     case 4:
+      WIDE_ONLY;
       op_resize(A, ga, VF_N);
       NEXT;
     case 5:
       op_resize(A, ga, C_MID);
       NEXT;
     case 6:
+      WIDE_ONLY;
       op_resize(A, ga, VF_MAX);
       NEXT;
     case 7:  // reserve(1 / N+1 / MAX+1)
@@ -282,6 +290,7 @@ VF_NOINLINE static void run(Ghost& ga, Ghost& gb) {
       op_reserve(A, 1);
       NEXT;
     case 8:
+      WIDE_ONLY;
       op_reserve(A, VF_N + 1);
       NEXT;
     case 9:
@@ -365,6 +374,7 @@ VF_NOINLINE static void run(Ghost& ga, Ghost& gb) {
       op_write(A, ga);
       NEXT;
     case 23:  // push on the partner vector
+      WIDE_ONLY;
       if (gb.n >= VF_MAX) SKIP;
       op_push(B, gb);
       NEXT;
